@@ -96,8 +96,21 @@ pub fn expr_ty(e: &E, tys: &[Ty]) -> Ty {
         E::Col(i) => tys[*i],
         E::Lit(Lit::S(_)) => Ty::Str,
         E::Lit(_) => Ty::Int,
-        E::Ite(_, r, _) => expr_ty(r, tys),
-        E::Coalesce(a, _) => expr_ty(a, tys),
+        // a NULL literal carries no type: look at the other branch
+        E::Ite(_, r, e2) => {
+            if matches!(**r, E::Lit(Lit::Null)) {
+                expr_ty(e2, tys)
+            } else {
+                expr_ty(r, tys)
+            }
+        }
+        E::Coalesce(a, b) => {
+            if matches!(**a, E::Lit(Lit::Null)) {
+                expr_ty(b, tys)
+            } else {
+                expr_ty(a, tys)
+            }
+        }
         _ => Ty::Int,
     }
 }
